@@ -95,6 +95,47 @@ def check_font(chk, font, cfg, srcs, glyphs, tol, q, ctx, replay):
                               f"(tolerance {d:.1f})", replay)
 
 
+def cli_steps(chk, quick):
+    """The CONFIGURED step is what the worker quantises with: the step given as a flag and in a TOML file must be the
+    grid of the ClipList of the font the real CLI writes (driver -> resolved TOML -> write_font)."""
+    import io
+    import shutil
+
+    from fontTools.ttLib import TTFont
+
+    from . import cli
+
+    cases = [("flag", 32, 1024), ("file", 48, 2048)] + ([] if quick else [("flag", 7, 1000), ("file", 1, 1024)])
+    with common.scratch("c05-cli-") as work:
+        for k, (how, step, upem) in enumerate(cases):
+            sb = cli.Sandbox(work / f"s{k}")
+            sb.write("src/emoji_u1f600.svg", cli.SVG_A)
+            sb.write("src/emoji_u1f601.svg", cli.SVG_C)
+            flags = ["--color_format", "glyf_colr_1", "--upem", str(upem)]
+            if how == "flag":
+                args = flags + [f"--clipbox_quantization={step}", "src/emoji_u1f600.svg", "src/emoji_u1f601.svg"]
+            else:
+                sb.write("font.toml", f'clipbox_quantization = {step}\n[axis.wght]\nname = "Weight"\ndefault = 400\n[master.regular]\n'
+                                      f'style_name = "Regular"\nsrcs = ["src/*.svg"]\n[master.regular.position]\nwght = 400\n')
+                args = flags + ["font.toml"]
+            rc, out = sb.run(args)
+            chk.case(key=("cli-step", how, step, upem), nontrivial=True)
+            chk.traces_validated += 1
+            replay = {"how": how, "step": step, "upem": upem, "args": args}
+            if rc != 0:
+                chk.violation(f"CLI build with clipbox_quantization={step} ({how}) fails: {out[-300:]}", replay)
+                continue
+            outs = [p for p in sb.build.glob("*.ttf")]
+            font = TTFont(io.BytesIO(outs[0].read_bytes()))
+            cl = font["COLR"].table.ClipList
+            boxes = [(b.xMin, b.yMin, b.xMax, b.yMax) for b in cl.clips.values()] if cl else []
+            if not boxes:
+                chk.violation(f"CLI build with clipbox_quantization={step} ({how}) has no clip boxes", replay)
+            elif step > 1 and any(v % step for b in boxes for v in b):
+                chk.violation(f"clipbox_quantization={step} given by {how}: the CLI's font has clip boxes {boxes[:2]} off the {step} grid", replay)
+            shutil.rmtree(sb.root, ignore_errors=True)
+
+
 def run(chk):
     quick = chk.tier == "quick"
     chk.rule = (
@@ -114,6 +155,7 @@ def run(chk):
         replay_clipbox_model(chk, res.records)
         chk.sample(res.records[-1])
     chk.exhaustive = True
+    cli_steps(chk, quick)
     recs = CC.run_compile_model(chk, "quick" if quick else "small")
     r0 = common.rng("C05")
     r0.shuffle(recs)
